@@ -189,7 +189,9 @@ def stepCheck (mode : Sched) (σ : Scan) (e : SEv) (outs : List SOut) : Scan × 
           | none => (σ, if outs = [.raise_ .protocolError] then [] else [.invocationNotRejected req])
           | some (obj, h) =>
             let a := beh.headD {}
-            let hasProg := ((alookup obj σ.regOpts).join).isSome && rp
+            -- the caller asked for progressive results iff the detail is there and is `true`
+            let asked := rp == some true
+            let hasProg := ((alookup obj σ.regOpts).join).isSome && asked
             let called := match outs.head? with
               | some (.endpoint req' _ _ _ _) => req' == req
               | _ => false
@@ -197,7 +199,7 @@ def stepCheck (mode : Sched) (σ : Scan) (e : SEv) (outs : List SOut) : Scan × 
               | some (.endpoint req' obj' h' args kw) =>
                 req' == req && obj' == obj && h' == h && args == p.args.getD [] && sameKw kw (expectedKw σ obj p hasProg)
               | _ => false
-            let σ' := { σ with owed := aset req { asked := rp, known := a.raises || a.ret != .pending, cancelled := false } σ.owed }
+            let σ' := { σ with owed := aset req { asked := asked, known := a.raises || a.ret != .pending, cancelled := false } σ.owed }
             if σ.unregging.contains obj then
               -- UNREGISTER is under way: the registration may or may not be active any more
               (if called then σ' else σ, if called || outs = [.raise_ .protocolError] then [] else [.invocationNotRejected req])
